@@ -308,6 +308,8 @@ def _rxn_cases(first):
                             continue
                         for order in ("sorted", "reversed"):
                             yield reac, prod, coeffs, order
+                        if nr + np_ <= 3 and 0.5 not in coeffs:
+                            yield reac, prod, coeffs, "typed"  # the same integers as sympy / numpy / float / Fraction numbers
                         if nr + np_ <= 3 and coeffs.count(1) >= nr + np_ - 1:
                             for inact in ("ir", "ip", "both"):
                                 if not (set(INACT[inact][0]) | set(INACT[inact][1])) & (set(reac) | set(prod)):
@@ -326,6 +328,18 @@ def _build_rxn(cls, reac, prod, coeffs, order):
     C = getattr(chempy, cls)
     rc = list(zip(reac, coeffs[: len(reac)]))
     pc = list(zip(prod, coeffs[len(reac):]))
+    if order == "typed":
+        # coefficients as they come out of other functions: sympy Integers (balance_stoichiometry), numpy integers (a row of a
+        # stoichiometry matrix), integer-valued floats (text with '2.0'), Fractions — a one is still a one
+        import fractions
+        import numpy
+        import sympy
+
+        kinds = [sympy.Integer, numpy.int64, float, fractions.Fraction]
+        rt = [(k, kinds[(n_ + len(k)) % 4](c)) for n_, (k, c) in enumerate(sorted(rc))]
+        pt = [(k, kinds[(n_ + 2 + len(k)) % 4](c)) for n_, (k, c) in enumerate(sorted(pc))]
+        r = C(dict(rt), dict(pt), inact_reac=dict(ir), inact_prod=dict(ip), checks=())
+        return r, [(k, c) for k, c in rt], [(k, c) for k, c in pt], sorted(ir.items()), sorted(ip.items())
     if order == "sorted":
         r = C(dict(rc), dict(pc), inact_reac=dict(ir), inact_prod=dict(ip), checks=())
         exp_r, exp_p = sorted(rc), sorted(pc)
